@@ -51,7 +51,7 @@ def to_py(d, name=None, instance=False):
         cls = getattr(dt, d[3])
     elif k == "stringn":
         cls = dt.STRINGN
-    elif k == "stringi":
+    elif k in ("stringi", "stringi1"):
         cls = dt.STRINGI
     elif k == "bits":
         cls = getattr(dt, d[2])
@@ -87,6 +87,8 @@ def to_py(d, name=None, instance=False):
 
 def to_sx(d):
     k = d[0]
+    if k == "stringi1":      # STRINGI as a member / an element: the same type, the VALUE is its single item
+        return "stringi"
     if k in ("bool", "real", "lreal", "dt", "stringi", "ip"):
         return k
     if k == "int":
@@ -193,6 +195,8 @@ def min_width(d):
         return 4
     if k == "stringi":
         return 1
+    if k == "stringi1":
+        return 8
     if k == "nbytes":
         return 1
     if k == "arr":
@@ -217,6 +221,18 @@ ELEMENTARY = (
 NAMES = ["a", "b", "x1", "Val", "member_3", "LEN", "DATA", "é"]
 
 
+NESTED_SPECIALS = True   # DATE_AND_TIME and STRINGI also as members / elements
+
+
+def _gen_stringi_item(rng):
+    code = rng.choice([0xD0, 0xD5, 0xD9, 0xDA])
+    s = gen_str(rng, {0xD0: 255, 0xD5: 0xFFFF, 0xD9: 127, 0xDA: 255}[code], 60)
+    if code == 0xD9 and s == "":
+        s = "x" if rng.random() < 0.9 else s
+    lang = rng.choice(["eng", "fra", "deu", "zho", "a b"])
+    return (s, code, lang, rng.choice([4, 1000, 1001, 0, 65535]))
+
+
 def gen_type(rng, depth, top=True, allow_tail=True):
     """random type descriptor; `allow_tail`: may consume the rest of the buffer (only sensible last)"""
     r = rng.random()
@@ -227,11 +243,14 @@ def gen_type(rng, depth, top=True, allow_tail=True):
         if r2 < 0.84:
             # DATE_AND_TIME.encode takes two positional arguments and STRINGI.encode a star-list:
             # neither can be encoded as a struct member / array element, so they only appear on top
-            return ("dt",) if top else ("int", "udint", "UDINT")
+            # (DATE_AND_TIME.encode took two positional arguments only, so it could not be a member or an element
+            #  until the library repair that lets it take the pair `decode` returns)
+            return ("dt",) if top or NESTED_SPECIALS else ("int", "udint", "UDINT")
         if r2 < 0.88:
             return ("stringn", rng.choice([1, 2, 4]) if top else 1)
         if r2 < 0.91:
-            return ("stringi",) if top else ("str", "usint", "latin1", "SHORT_STRING")
+            # STRINGI.encode takes a star-list: as a member / an element the value is ONE item ("stringi1")
+            return ("stringi",) if top else (("stringi1",) if NESTED_SPECIALS else ("str", "usint", "latin1", "SHORT_STRING"))
         if r2 < 0.95:
             return ("nbytes", rng.choice([1, 2, 3, 4, 7, 16]))
         if r2 < 0.97 and allow_tail:
@@ -392,6 +411,8 @@ def gen_valid(rng, d, budget=None):
         return gen_str(rng, 0xFFFF, min(hi, 400))
     if k == "stringn":
         return gen_str(rng, {1: 127, 2: 0xFFFF, 4: 0x10FFFF}[d[1]], 300)
+    if k == "stringi1":
+        return _gen_stringi_item(rng)
     if k == "stringi":
         n = rng.choice([0, 1, 1, 2, 3])
         items = []
@@ -485,6 +506,8 @@ def expected(d, c):
         return out
     if k == "stringi":
         return ([s for (s, _, _, _) in c], [l for (_, _, l, _) in c], [cs for (_, _, _, cs) in c])
+    if k == "stringi1":
+        return ([c[0]], [c[2]], [c[3]])
     return c
 
 
@@ -528,6 +551,8 @@ def variant(rng, d, c):
         return tuple(c) if r < 0.1 else [1 if b else 0 for b in c]
     if k == "stringi":
         return [(s, code, l, cs) for (s, code, l, cs) in c]
+    if k == "stringi1":
+        return list(c) if r < 0.3 else tuple(c)
     return c
 
 
@@ -544,6 +569,14 @@ def py_value(d, v):
             else:
                 out.append(it)
         return out
+    if k == "stringi1":
+        m = {0xD0: dt.STRING, 0xD5: dt.STRING2, 0xD9: dt.STRINGN, 0xDA: dt.SHORT_STRING}
+        if isinstance(v, (list, tuple)) and len(v) == 4 and isinstance(v[1], int) and v[1] in m:
+            out = [v[0], m[v[1]], v[2], v[3]]
+            return tuple(out) if isinstance(v, tuple) else out
+        if isinstance(v, list):      # a LIST of items (the top-level spelling): must be rejected as a member value
+            return py_value(("stringi",), v)
+        return v
     if k == "struct" and isinstance(v, dict):
         return {key: (py_value(dict((mn, md) for (mn, md, inst) in d[1] if inst and mn)[key], x)
                       if key in dict((mn, md) for (mn, md, inst) in d[1] if inst and mn) else x) for key, x in v.items()}
@@ -645,6 +678,10 @@ def gen_invalid(rng, d):
         return rng.choice([None, 5, "str", [1, 2], b"", b"x" * max(0, d[1] - 1)])
     if k == "real" or k == "lreal":
         return rng.choice([None, "1.0", [1.0], 1e39 if k == "real" else "x", 3.5e38 if k == "real" else b"1", 2 ** 200])
+    if k == "stringi1":
+        return rng.choice([None, 5, [("a", 0xD0, "eng", 4)], [("a", 0xD0, "eng", 4), ("b", 0xD0, "eng", 4)], [], (),
+                           ("a",), ("a", 0xD0, "eng"), ("a", 0xD0, "engl", 70000), (5, 0xD0, "eng", 4),
+                           ("Ā", 0xD0, "eng", 4), ("a", 0xD0, "é€x", 4), ("a", 0xD0, "eng", 4, 5)])
     if k == "stringi":
         return rng.choice([None, 5, [("a",)], [("a", 0xD0, "eng")], [("a", 0xD0, "engl", 70000)], [(5, 0xD0, "eng", 4)],
                            [("a", 0xD0, "eng", 4)] * 256, [("Ā", 0xD0, "eng", 4)], [("a", 0xD0, "é€x", 4)]])
